@@ -77,11 +77,11 @@ def rand_record(rnd):
 
 
 # ---------------------------------------------------------------- configurations
-CFG_RECS = [0, 1, 2, 3, 5, 8, 1 << 20]
-CFG_SIZE = [0, 1, 60, 150, 400, 1 << 30]
+CFG_RECS = [0, 1, 2, 3, 5, 8, 1 << 20, U64MAX]       # U64MAX: the limit switched off
+CFG_SIZE = [0, 1, 60, 150, 400, 1 << 30, U64MAX]
 CFG_RBUF = [0, 1, 7, 64, 64 << 20]
-CFG_ITEMS = [0, 1, 2, 3, 100000]
-CFG_CAP = [0, 1, 10, 1 << 30]
+CFG_ITEMS = [0, 1, 2, 3, 100000, U64MAX]
+CFG_CAP = [0, 1, 10, 1 << 30, U64MAX]
 
 
 def rand_cfg(rnd, big_cache=False, small_cache=False, trunc=None):
